@@ -51,12 +51,12 @@ func (dv *defaultVerifierPipeline) worker(ctx context.Context, wg *sync.WaitGrou
 			verifPoint("verify.recv")
 			extra, noExists, err := dv.verifyRoot(root)
 			if err != nil {
-				errc <- err
+				sendErr(ctx, errc, err)
 			}
 			// TODO: 1Root分のエラーしか出力しないようになってるから、全Root分の検査結果を出力する方がいいかも
 			if err := dv.handleErr(extra, noExists); err != nil {
 				verifPoint("verify.err")
-				errc <- err
+				sendErr(ctx, errc, err)
 			}
 		}
 	}
